@@ -315,19 +315,37 @@ RunInfo run(const sim::Plan &plan) {
         for (auto &b : c.w[k].mailbox) rest.push_back(b);
     }
     sim::Rng r(sim::mix64(plan.seed, 0x4E57));
+    // cfg "keep_live": that many blocks stay alive across aws_mem_tracer_destroy ("unwraps the traced allocator ... returns the original
+    // allocator"): they are the caller's, keep their contents, and are released through the returned allocator afterwards
+    std::vector<Block> kept;
+    size_t keep = (size_t)plan.get("keep_live", 0);
     while (!rest.empty()) {
         size_t i = r.below(rest.size());
         Block b = rest[i];
         rest.erase(rest.begin() + (long)i);
         verify(b, "final release");
+        if (kept.size() < keep) { kept.push_back(b); continue; }
         c.live.erase((uintptr_t)b.p);
         aws_mem_release(c.tr, b.p);
     }
-    if (aws_mem_tracer_bytes(c.tr) != 0) sim::violation("c17:bytes", "everything released but the tracer reports %zu bytes", aws_mem_tracer_bytes(c.tr));
-    if (aws_mem_tracer_count(c.tr) != 0) sim::violation("c17:count", "everything released but the tracer reports %zu allocations", aws_mem_tracer_count(c.tr));
-    aws_mem_tracer_dump(c.tr); // with nothing live: must be a no-op
+    if (kept.empty()) {
+        if (aws_mem_tracer_bytes(c.tr) != 0) sim::violation("c17:bytes", "everything released but the tracer reports %zu bytes", aws_mem_tracer_bytes(c.tr));
+        if (aws_mem_tracer_count(c.tr) != 0) sim::violation("c17:count", "everything released but the tracer reports %zu allocations", aws_mem_tracer_count(c.tr));
+        aws_mem_tracer_dump(c.tr); // with nothing live: must be a no-op
+    } else {
+        quiescent_check(c, "before destroying the tracer with live allocations", true);
+        sim::probe("tracer_destroyed_with_live_allocations");
+    }
+    size_t parent_live_before = simalloc::live_count();
     struct aws_allocator *back = aws_mem_tracer_destroy(c.tr);
     if (back != c.parent) sim::violation("c17:destroy", "aws_mem_tracer_destroy did not return the wrapped allocator");
+    for (const Block &b : kept) {
+        size_t bs = simalloc::block_size(b.p); // may be larger than the logical size (a shrinking realloc without mem_realloc keeps the block)
+        if (bs == (size_t)-1 || bs < b.size) sim::violation("c17:destroy", "destroying the tracer released a live allocation of %zu bytes that belongs to the caller", b.size);
+        verify(b, "after the tracer was destroyed");
+    }
+    (void)parent_live_before;
+    for (const Block &b : kept) { c.live.erase((uintptr_t)b.p); aws_mem_release(back, b.p); }
     aws_logger_set(nullptr);
     aws_logger_clean_up(&c.logger);
     aws_log_channel_clean_up(&c.channel);
@@ -367,6 +385,7 @@ void gen(uint64_t seed, int tier, sim::Plan &p) {
     if (r.chance(0.15)) p.cfg["backtrace_mode"] = r.range(1, 3);
     if (r.chance(0.15)) p.cfg["p_clockfail_boot"] = r.pick(std::vector<int64_t>{1000000, 1000000, 50000, 300000});
     p.cfg["alloc_move_permille"] = r.pick(std::vector<int64_t>{0, 500, 1000});
+    if (r.chance(0.25)) p.cfg["keep_live"] = r.range(1, 4);
     static const std::vector<int64_t> sizes = {1, 8, 16, 16, 16, 32, 32, 64, 100, 1000, 5000};
     int maxops = tier ? 100 : 40;
     for (int t = 1; t <= nw; t++) {
